@@ -1,6 +1,7 @@
 import MW.Inv.NoPanic
 import MW.Treasury.Model
 import MW.Staking.Interface
+import MW.Inv.RecoverNoPanic
 /-!
 # C16 — Entry points never panic, overflow or divide by zero
 
@@ -566,6 +567,52 @@ theorem treasury_admin_always_set (env : Env) (info : Info) (msg : MW.Treasury.T
 
 /-- non-vacuity: the envelope admits, e.g., a 10^27 stake at a 2:1 rate with 10^30 totals -/
 example : (10 : Nat) ^ 30 ≤ 1000 * (5 * 10 ^ 29) ∧ 5 * 10 ^ 29 ≤ 1000 * 10 ^ 30 ∧ TOT + AMT ≤ U128.max := by decide
+
+/-- RecoverPendingIbcTransfers (paginated or not, receiver-directed, admin-forced with any id list) never panics inside
+the envelope: the `unwrap` on the largest key, the unchecked `+=` over the selected amounts and `max key + 1` are safe -/
+theorem recover_np (s : CState) (env : Env) (info : Info) (sel : Option (List Nat)) (rc : Option String) (page : Bool)
+    (e : Err) (hi : CInv s) (he : Envelope s env info) (h : recover s env info sel rc page = .error e) :
+    e.isPanic = false :=
+  MW.Staking.recover_np s env info sel rc page e hi he.time AMT (10 ^ 9) he.pkts.1 he.pkts.2.1 he.pkts.2.2 (by decide) h
+
+/-- **every message, one statement**: in every state satisfying the structural invariant (every reachable state does,
+`cinv_reach`) and inside the envelope of the property, `execute` — whatever the message, the sender and the funds —
+returns a result or a typed error; the only panics left are the rate panics of states whose rate has left the
+`Decimal` range (classified by `Fine`, outside the envelope's rate bound after the call) -/
+theorem execute_never_panics (s : CState) (env : Env) (info : Info) (m : ExecMsg) (e : Err) (hi : CInv s)
+    (he : Envelope s env info)
+    (hrecv : ∀ k b R, s.batches.find? k = some b → b.received = some R → R ≤ AMT)
+    (h : execute s env info m = .error e) : Fine e := by
+  have hadm := admin_handlers_np s env info e he.time
+  cases m <;> simp only [execute] at h
+  case liquidStake mt tn ex =>
+    simp only [bind_err] at h
+    rcases h with h | ⟨pay, hp, h⟩
+    · exact fine_of_np (mustPay_err_not_panic h)
+    · have hf := (mustPay_ok hp).1
+      have := he.funds ⟨s.config.proto.ibcDenom, pay⟩ (by rw [hf]; simp)
+      exact stake_np s env info pay mt tn ex e he this h
+  case liquidUnstake =>
+    simp only [bind_err] at h
+    rcases h with h | ⟨pay, hp, h⟩
+    · exact fine_of_np (mustPay_err_not_panic h)
+    · have hf := (mustPay_ok hp).1
+      have := he.funds ⟨s.config.lstDenom, pay⟩ (by rw [hf]; simp)
+      exact fine_of_np (unstake_np s env info pay e hi he this h)
+  case submitBatch => exact submit_np s env info e hi he h
+  case withdraw b => exact withdraw_np s env info b e hi hrecv h
+  case addValidator v => exact fine_of_np (hadm.1 v h)
+  case removeValidator v => exact fine_of_np (hadm.2.1 v h)
+  case transferOwnership n => exact fine_of_np (hadm.2.2.1 n h)
+  case acceptOwnership => exact fine_of_np (hadm.2.2.2.2.1 h)
+  case revokeOwnershipTransfer => exact fine_of_np (hadm.2.2.2.1 h)
+  case updateConfig n p f mo bp => exact fine_of_np (hadm.2.2.2.2.2.2.2.2 n p f mo bp h)
+  case receiveRewards => exact rewards_np s env info e he h
+  case receiveUnstakedTokens b => exact fine_of_np (hadm.2.2.2.2.2.2.2.1 b h)
+  case circuitBreaker => exact fine_of_np (hadm.2.2.2.2.2.1 h)
+  case resumeContract n l r => exact resume_np s env info n l r e h
+  case recover pg sel rc => exact fine_of_np (recover_np s env info sel rc (pg.getD false) e hi he h)
+  case feeWithdraw a => exact fine_of_np (hadm.2.2.2.2.2.2.1 a h)
 
 /-- **"each entry point of both contracts", "every message"**: the entry points and every message enum / struct of
 both contracts as the source declares them (tables regenerated from /repo on every run) are exactly the ones the
